@@ -33,8 +33,8 @@ KINDS = ["SupervisedOPF", "SemiSupervisedOPF", "KNNSupervisedOPF", "Unsupervised
 
 def bounds(tier):
     return {"n": [3, 4] + ([5] if tier == "thorough" else []), "kinds": KINDS,
-            "batches": "all of length <= 3 over 5 queries (155)",
-            "histories": "all pairs of batches of length <= 2 (900)" + (" for n=3 only" if tier == "quick" else ""),
+            "batches": "all of length <= 3 over 6 queries (258)",
+            "histories": "all pairs of batches of length <= 2 (1764)" + (" for n=3 only" if tier == "quick" else ""),
             "metrics": ["euclidean"] + (["log_squared_euclidean", "manhattan"] if tier == "thorough" else [])}
 
 
@@ -68,7 +68,8 @@ def programs(shard, seed):
         xs = sorted({p[0] for p in X})
         other = [p[0] for p in pts if p[0] not in xs]
         pool = [X[0], X[-1], [(xs[0] + xs[-1]) / 2.0 + 0.25], [xs[-1] * 9.0 + 50.0],
-                [other[0]] if other else [xs[0] - 1.5]]
+                [other[0]] if other else [xs[0] - 1.5],
+                [1e200]]       # so far away that every distance overflows to +inf
         labs = E.labelings(n, max_classes=2) if n <= 3 else [tuple(i % 2 for i in range(n)),
                                                              tuple(1 if i >= n // 2 else 0 for i in range(n))]
         for lab in labs:
@@ -90,6 +91,10 @@ def programs(shard, seed):
                         p["max_k"] = mk
                         p["val"] = {"X": X, "labels": lab}
                         yield p
+                        if mk == 2:          # the model validation would pick k = 2 for
+                            q = dict(p)
+                            q["force_k"] = 2
+                            yield q
             else:
                 for mk in (1, 2):
                     if mk <= n - 1:
@@ -97,13 +102,19 @@ def programs(shard, seed):
                         p["min_k"] = 1
                         p["max_k"] = mk
                         yield p
+                        if mk == 2:
+                            q = dict(p)
+                            q["force_k"] = 2
+                            yield q
 
 
 def fit(prog):
     if prog["model"] in ("SupervisedOPF", "SemiSupervisedOPF"):
         m, _ = sup.fit_program(prog, fresh=True)
     else:
-        m = K.fit_program(prog)
+        from mc.props import c13
+        with c13.force_k(prog):
+            m = K.fit_program(prog)
         if prog["model"] == "UnsupervisedOPF":
             m.propagate_labels()
     return m
